@@ -816,9 +816,18 @@ func init() {
 			p.Chain = append(p.Chain, world.ChainEv{AtMs: burstAt, Chain: chain, Kind: "mine", N: burst})
 			cfg := &world.AdvCfg{Role: "taker", Chain: chain, Amount: p.Ops[0].Amount}
 			// the taker's cancel / coop_close lands just around the burst
-			delta := pick(t, "delta", []int{-2000, -100, -10, 0, 0, 1, 5, 20, 50, 80, 99, 100, 101, 150, 200, 450, 500, 501, 600, 700, 3000})
-			p.Scn.RpcParkRate = pick(t, "park", []int{0, 0, 300, 1000})
+			delta := pick(t, "delta", []int{-2000, -100, -10, 0, 0, 1, 5, 20, 50, 80, 99, 100, 101, 150, 200, 450, 500, 501, 600, 700, 3000, -1, -5, -20, -50, -500, -1000})
+			p.Scn.RpcParkRate = pick(t, "park", []int{0, 300, 1000, 1000})
 			p.Adv = append(p.Adv, world.AdvMove{Kind: "inject", AtMs: burstAt + delta, Arg: pick(t, "what", []string{"cancel", "coop", "cancel"}), N: 0, M: 1})
+			if rapid.Bool().Draw(t, "slow-backend") {
+				// the maker's chain back-end answers slowly around the burst (a loaded node): calls
+				// into the watcher and the watcher's own block handling overlap for seconds
+				site := "btc.rpc.gettxout"
+				if chain == "lbtc" {
+					site = "lbtc.rpc.gettxout"
+				}
+				p.Faults = append(p.Faults, world.Fault{Node: 0, Site: site, Kind: pick(t, "slowkind", []string{"slow", "lag", "lag"}), Ms: pick(t, "slowms", []int{700, 1500, 4000}), FromMs: burstAt - 5000, ToMs: burstAt + 8000})
+			}
 			if rapid.Bool().Draw(t, "second") {
 				p.Adv = append(p.Adv, world.AdvMove{Kind: "inject", AtMs: burstAt + delta + pick(t, "delta2", []int{1, 100, 1000}), Arg: pick(t, "what2", []string{"cancel", "coop"}), N: 0, M: 1})
 			}
